@@ -3,9 +3,8 @@
 //! Read the `windows` module for reference.
 
 use std::ffi::c_int;
-use std::io::{self, Write};
+use std::io::{self, BufRead, Write};
 use std::ptr::{self, NonNull, null_mut};
-use std::slice;
 
 use memchr_rs::memchr;
 
@@ -83,47 +82,44 @@ impl Stdin for UnixStdin {
         print!("{prompt}");
         io::stdout().flush()?;
 
-        let mut cap = 8 * KIBI;
-        let mut buf = ArenaString::with_capacity_in(cap, arena);
-        let mut len = 0;
-
-        loop {
-            if len == cap {
-                cap *= 2;
-                buf.reserve_exact(cap - buf.capacity());
-            }
-
-            let count = cap - len;
-            let base = buf.as_ptr();
-
-            let n = unsafe {
-                libc::read(libc::STDIN_FILENO, base.add(len) as *mut libc::c_void, count)
-            };
-            if n < 0 {
-                return Err(io::Error::last_os_error());
-            }
-            if n == 0 {
-                // EOF
-                break;
-            }
-            let n = n.cast_unsigned();
-
-            len += n;
-
-            let hay = unsafe { slice::from_raw_parts(base, len) };
-            let index = memchr(b'\n', hay, len - n);
-            if index < len {
-                len = index;
-                break;
-            }
-        }
-
-        unsafe {
-            buf.as_mut_vec().set_len(len);
-        }
-
-        Ok(buf)
+        // The process-wide stdin buffer keeps whatever a read returned beyond
+        // the first newline, so the next call continues with the next line.
+        read_line_from(&mut io::stdin().lock(), arena)
     }
+}
+
+/// Reads bytes up to and excluding the next `\n` (or up to EOF) from `input` and
+/// consumes the newline. Bytes after it stay in `input` for the next call.
+fn read_line_from<'a, R: BufRead>(
+    input: &mut R,
+    arena: &'a Arena,
+) -> Result<ArenaString<'a>, io::Error> {
+    let mut line = Vec::with_capacity_in(KIBI, arena);
+
+    loop {
+        let chunk = match input.fill_buf() {
+            Ok(chunk) => chunk,
+            Err(err) if err.kind() == io::ErrorKind::Interrupted => continue,
+            Err(err) => return Err(err),
+        };
+        if chunk.is_empty() {
+            // EOF
+            break;
+        }
+
+        let index = memchr(b'\n', chunk, 0);
+        if index < chunk.len() {
+            line.extend_from_slice(&chunk[..index]);
+            input.consume(index + 1);
+            break;
+        }
+
+        let count = chunk.len();
+        line.extend_from_slice(chunk);
+        input.consume(count);
+    }
+
+    Ok(ArenaString::from_utf8_lossy_owned(line))
 }
 
 pub struct UnixProcessRunner;
